@@ -94,6 +94,7 @@ def expand_source_SCCs(
         # can be no attractors here because we are just fixing the source nodes.
         sd.node_data(root)["expanded"] = True
         sd.node_data(root)["attractor_seeds"] = []
+        sd.node_data(root)["attractor_candidates"] = []
         sd.node_data(root)["attractor_sets"] = []
         current_level = next_level
         next_level = set()
